@@ -73,7 +73,7 @@ class Cli(Engine):
         "C14": ["EXIT", "JS"],
         "C03": ["EXIT"],
         "C17": ["EXIT"],
-        "C19": ["WR"],
+        "C19": ["WR", "PROBE"],
         "C20": ["OUT", "JS", "OM", "TR", "VR", "EM", "CANON"],
     }
 
